@@ -26,6 +26,9 @@ type c06AliasCase struct {
 	OwnType    string `json:"own_type"`
 	OwnSameAs  int    `json:"own_same_as"` // index of the imported binary with the same bytes, -1 = different bytes
 	SkipSource bool   `json:"skip_source"` // read with SkipSourceCodeReader (own binary content left empty)
+	// OwnName: name of the importing package's own module; it may be the name of one of the imported modules (the
+	// package then holds both X and alias:X)
+	OwnName string `json:"own_name,omitempty"`
 }
 
 func genC06Alias(t *rapid.T) c06AliasCase {
@@ -46,6 +49,10 @@ func genC06Alias(t *rapid.T) c06AliasCase {
 		c.OwnSameAs = rapid.IntRange(0, len(c.Graph.Bins)-1).Draw(t, "sameas")
 	}
 	c.SkipSource = rapid.IntRange(0, 3).Draw(t, "skipsource") == 0
+	c.OwnName = "own_map"
+	if rapid.IntRange(0, 2).Draw(t, "homonym") == 0 {
+		c.OwnName = c.Graph.Mods[rapid.IntRange(0, len(c.Graph.Mods)-1).Draw(t, "homonymof")].Name
+	}
 	return c
 }
 
@@ -81,8 +88,12 @@ func checkC06Alias(c c06AliasCase) *ev.Failure {
 		if ownType == "" {
 			ownType = "wasm/rust-v1"
 		}
+		ownName := c.OwnName
+		if ownName == "" {
+			ownName = "own_map"
+		}
 		var y strings.Builder
-		fmt.Fprintf(&y, "specVersion: v0.1.0\npackage:\n  name: importer\n  version: v0.1.0\nimports:\n  %s: ./base.spkg\nbinaries:\n  default:\n    type: %s\n    file: ./own.wasm\nmodules:\n  - name: own_map\n    kind: map\n    initialBlock: 0\n    inputs:\n      - source: %s\n", c.Alias, ownType, gdsl.BlockType)
+		fmt.Fprintf(&y, "specVersion: v0.1.0\npackage:\n  name: importer\n  version: v0.1.0\nimports:\n  %s: ./base.spkg\nbinaries:\n  default:\n    type: %s\n    file: ./own.wasm\nmodules:\n  - name: %s\n    kind: map\n    initialBlock: 0\n    inputs:\n      - source: %s\n", c.Alias, ownType, ownName, gdsl.BlockType)
 		if c.Uses != "" {
 			fmt.Fprintf(&y, "      - map: %s:%s\n", c.Alias, c.Uses)
 		}
@@ -143,7 +154,7 @@ func firstWords(s string) string {
 func TestC06Alias(t *testing.T) {
 	ev.Get("C06", "AliasImport").Rule = "rapid: a generated valid graph is written as an .spkg and imported under an alias by a generated YAML manifest (whose own module may read one of the imported mappers, and whose own binary has a generated type and bytes that may equal those of an imported binary; read with and without SkipSourceCodeReader), read with manifest.NewReader(...).Read() (prefixModules, reindexAndMergePackage); every imported module must keep the identifier it has in its own package; non-trivial = the importing module reads an imported mapper and the graph has >= 4 modules"
 	ev.Prop(t, "C06", "AliasImport", genC06Alias, checkC06Alias, func(c c06AliasCase) (bool, []string) {
-		return c.Uses != "" && len(c.Graph.Mods) >= 4, []string{"alias=" + c.Alias, fmt.Sprintf("own-bytes-shared=%v", c.OwnSameAs >= 0), "own-type=" + c.OwnType, fmt.Sprintf("skip-source=%v", c.SkipSource)}
+		return c.Uses != "" && len(c.Graph.Mods) >= 4, []string{"alias=" + c.Alias, fmt.Sprintf("own-bytes-shared=%v", c.OwnSameAs >= 0), "own-type=" + c.OwnType, fmt.Sprintf("own-module-homonym-of-an-imported-one=%v", c.OwnName != "" && c.OwnName != "own_map"), fmt.Sprintf("skip-source=%v", c.SkipSource)}
 	})
 }
 
